@@ -309,7 +309,7 @@ func (g *Gen) Msg(d MD, depth int) *Msg {
 		if fd.IsMap() && fd.MapValue().Kind() == protoreflect.MessageKind {
 			isMsg = true
 		}
-		if isMsg && depth >= g.O.MaxDepth {
+		if isMsg && depth >= g.O.MaxDepth && fd.Cardinality() != protoreflect.Required {
 			continue
 		}
 		if inOneof(fd) {
@@ -327,7 +327,7 @@ func (g *Gen) Msg(d MD, depth int) *Msg {
 			m.F = append(m.F, &FVal{FD: fd, S: &v})
 			continue
 		}
-		if r.Float64() >= p {
+		if r.Float64() >= p && fd.Cardinality() != protoreflect.Required {
 			continue
 		}
 		f := &FVal{FD: fd}
